@@ -233,6 +233,8 @@ impl FrameBuf {
         let channels = self.channels();
         self.size = new_size;
         self.samples.resize(self.size * channels, 0i32);
+        // samples loaded before do not fit in the new layout.
+        self.filled_size = std::cmp::min(self.filled_size, new_size);
     }
 
     /// Returns the number of channels
@@ -245,7 +247,8 @@ impl FrameBuf {
     /// assert_eq!(fb.channels(), 8);
     /// ```
     pub fn channels(&self) -> usize {
-        self.samples.len() / self.size
+        // `size` can be zero after `resize(0)`.
+        self.samples.len().checked_div(self.size).unwrap_or(0)
     }
 
     /// Returns samples from the given channel.
@@ -280,8 +283,8 @@ impl Fill for FrameBuf {
     fn fill_interleaved(&mut self, interleaved: &[i32]) -> Result<(), SourceError> {
         let stride = self.size();
         let channels = self.channels();
-        if interleaved.len() > stride * channels {
-            // more samples than the block size.
+        if channels == 0 || interleaved.len() > stride * channels {
+            // resized to zero, or more samples than the block size.
             return Err(SourceError::by_reason(SourceErrorReason::InvalidBuffer));
         }
         deinterleave(interleaved, channels, stride, &mut self.samples);
@@ -292,10 +295,11 @@ impl Fill for FrameBuf {
     #[inline]
     fn fill_le_bytes(&mut self, bytes: &[u8], bytes_per_sample: usize) -> Result<(), SourceError> {
         if !(1..=4).contains(&bytes_per_sample)
+            || self.channels() == 0
             || bytes.len() % bytes_per_sample != 0
             || bytes.len() / bytes_per_sample > self.size() * self.channels()
         {
-            // unsupported sample format, or more samples than the block size.
+            // unsupported sample format, resized to zero, or more samples than the block size.
             return Err(SourceError::by_reason(SourceErrorReason::InvalidBuffer));
         }
         let sample_count = bytes.len() / bytes_per_sample;
